@@ -269,3 +269,26 @@ def wrap(wrap_after: int, width: int, si: int, comma_first: bool, columns: bool)
     if w:
         return 2
     return 1
+
+
+# ---- parentheses with every filling of blanks (strip_whitespace: no blank after `(` or before `)`) ---------
+PCONTENT = ['', 'a', 'a, b', 'select 1', '(a)', '( )']
+PWS = ['', ' ', ' \n\t']
+PCTX = ['select now{} from t', 'select a from t where x in {}', 'insert into t values {}', 'select {}', 'create table t {}', 'select f{}, g{} from t']
+POPTS = [dict(strip_whitespace=True), dict(reindent=True), dict(strip_whitespace=True, use_space_around_operators=True)]
+
+
+def parens_why(ci, w1, w2, xi, oi):
+    text = PCTX[xi].replace('{}', '(' + PWS[w1] + PCONTENT[ci] + PWS[w2] + ')')
+    o = POPTS[oi]
+    return normal_why(text, o)
+
+
+def parens(ci: int, w1: int, w2: int, xi: int, oi: int) -> int:
+    """
+    pre: 0 <= ci < 6 and 0 <= w1 < 3 and 0 <= w2 < 3 and 0 <= xi < 6 and 0 <= oi < 3
+    pre: PART < 0 or xi == PART
+    post: _ != 2
+    """
+    w = parens_why(conc(ci, 5), conc(w1, 2), conc(w2, 2), conc(xi, 5), conc(oi, 2))
+    return 2 if w else 1
